@@ -1,7 +1,7 @@
 //go:build verif
 
 // C03 part "history" — the answer to "may this key do this on this channel" is a function of the key and the
-// channel only (DESIGN §10.7). The grammar part asks Service.Authorize once per (key, channel, operation); here a
+// channel only (DESIGN §10.5c-f). The grammar part asks Service.Authorize once per (key, channel, operation); here a
 // pool of keys is presented again and again, interleaved with the operations that exercise whatever the broker
 // remembers about keys: link-extension requests with extendable keys (valid and refused ones), key generation with
 // the master key, subscribe / publish / unsubscribe through the real entry points, presentation of expired, foreign
